@@ -5,6 +5,7 @@ package main
 
 import (
 	"bytes"
+	"errors"
 	"fmt"
 	"net"
 
@@ -678,6 +679,191 @@ func twoConnStmt(name string, role string, iat int, bound int, seed int64) mc.Sc
 	}
 }
 
+// pairT is one real endpoint (role) against a reference peer.
+type pairT struct {
+	cw, sw       *wire.Conn
+	real         *wire.Conn // the real endpoint's side of the wire
+	conn         net.Conn
+	rs           *o4h.RefSession
+	hsErr, rfErr error
+	refDone      bool
+}
+
+// establish spawns the reference peer (which runs peerBody once established)
+// and performs the real endpoint's handshake on the calling thread.
+func establish(s *sched.Sched, role string, br *o4h.Bridge, sf base.ServerFactory, tag string, refRnd *rnd.Stream, peerBody func(p *pairT)) *pairT {
+	p := &pairT{}
+	p.cw, p.sw = wire.Pipe("client"+tag, "server"+tag)
+	p.real = p.cw
+	if role == "server" {
+		p.real = p.sw
+	}
+	s.Spawn("ref-peer"+tag, func() {
+		defer func() { p.refDone = true }()
+		if role == "client" {
+			p.rs, p.rfErr = o4h.RefServer(p.sw, br.ID, o4h.ServerOpts{PadLen: 4, LenSeed: br.Seed}, refRnd)
+		} else {
+			p.rs, _, p.rfErr = o4h.RefClient(p.cw, br.ID.Pub[:], br.ID.NodeID[:], o4h.ClientOpts{PadLen: 90}, refRnd)
+		}
+		if p.rfErr == nil {
+			peerBody(p)
+		}
+	})
+	if role == "client" {
+		p.conn, p.hsErr = o4h.Dial(br.ClientArgs("cert", nil), p.cw)
+	} else {
+		p.conn, p.hsErr = sf.WrapConn(p.sw)
+	}
+	return p
+}
+
+// edgeScenario: boundary coincidences and end-of-stream / error paths of one
+// real endpoint (kind):
+//
+//	exact-buffer/<frames>: the peer's burst is exactly <frames> maximum frames
+//	    (16 = the endpoint's whole read buffer) and then the peer is silent;
+//	close-with-data/<end>: the peer writes and ends (eof / reset); the last
+//	    bytes arrive in the same Read as the end (the wire's CoalesceEnd mode);
+//	other-conn-write-failure/<n>: the n-th wire write of ANOTHER connection of
+//	    the same process fails; this connection's stream must be unaffected.
+func edgeScenario(name, role string, iat int, kind string, arg int, seed int64) mc.Scenario {
+	return mc.Scenario{
+		Name:   name,
+		Params: map[string]any{"role": role, "iat": iat, "kind": kind, "arg": arg},
+		Weight: 60,
+		Run: func(c *mc.Ctx) {
+			br := o4h.NewBridge(seed, "c01/0", iat, false)
+			o4h.SetBias(false)
+			rnd.Install(rnd.New(seed, "c01-"+name))
+			var got []byte
+			var rdErr, wrErr, otherErr error
+			var inbound, outbound []byte
+			var p, other *pairT
+			finished := false
+			res := sched.Run(c, sched.Options{NoPreempt: true, NoEarlyTimers: true, MaxSteps: 3_000_000}, func() {
+				s := sched.Cur()
+				var sf base.ServerFactory
+				if role == "server" {
+					var err error
+					if sf, err = br.ServerFactory(); err != nil {
+						rdErr = err
+						return
+					}
+				}
+				switch kind {
+				case "exact-buffer":
+					inbound = o4h.Pattern('I', 0, arg*1427)
+					p = establish(s, role, br, sf, "", rnd.New(seed, "c01-ref-"+name), func(p *pairT) {
+						p.rs.Send(inbound, 0) // arg maximum frames in one write, then silence
+					})
+				case "close-with-data":
+					inbound = o4h.Pattern('I', 0, 100+2*1427)
+					p = establish(s, role, br, sf, "", rnd.New(seed, "c01-ref-"+name), func(p *pairT) {
+						p.rs.Send(inbound[:100], 3)
+						p.rs.Send(inbound[100:], 0)
+						peer := p.sw
+						if role == "server" {
+							peer = p.cw
+						}
+						if arg == 0 {
+							peer.CloseWrite()
+						} else {
+							peer.Out.Err = errors.New("connection reset by peer")
+						}
+					})
+					if p.hsErr == nil {
+						p.real.CoalesceEnd = true
+					}
+				case "other-conn-write-failure":
+					outbound = o4h.Pattern('O', 0, 2000)
+					other = establish(s, role, br, sf, "-other", rnd.New(seed, "c01-ref-other-"+name), func(p *pairT) {
+						for {
+							if _, err := p.rs.RecvOnce(); err != nil {
+								return
+							}
+						}
+					})
+					if other.hsErr != nil {
+						rdErr = other.hsErr
+						return
+					}
+					p = establish(s, role, br, sf, "", rnd.New(seed, "c01-ref-"+name), func(p *pairT) {
+						for len(p.rs.Payload) < len(outbound) {
+							if _, err := p.rs.RecvOnce(); err != nil {
+								return
+							}
+						}
+					})
+					if p.hsErr != nil {
+						return
+					}
+					base0 := other.real.NWrites
+					other.real.WriteFault = func(n int, _ []byte) error {
+						if n-base0 >= arg {
+							return errors.New("injected write failure")
+						}
+						return nil
+					}
+					_, otherErr = other.conn.Write(o4h.Pattern('X', 0, 3000))
+					_, wrErr = p.conn.Write(outbound)
+					other.real.Close()
+					s.Point("peer-done", func() bool { return p.refDone })
+					finished = true
+					return
+				}
+				if p.hsErr != nil {
+					return
+				}
+				b := make([]byte, 4096)
+				for {
+					n, err := p.conn.Read(b)
+					got = append(got, b[:n]...)
+					if err != nil {
+						rdErr = err
+						break
+					}
+					if kind == "exact-buffer" && len(got) >= len(inbound) {
+						break
+					}
+				}
+				finished = true
+			})
+			if len(res.Panics) > 0 {
+				fail(c, "no-panic", "edge/panic/"+kind, "%s", res.Panics[0])
+				return
+			}
+			if p == nil || p.hsErr != nil || p.rfErr != nil {
+				fail(c, "handshake", "edge/handshake", "setup failed: %v / %+v", rdErr, p)
+				return
+			}
+			c.Observe("out", fmt.Sprintf("got=%d rd=%v wr=%v other=%v finished=%v", len(got), rdErr, wrErr, otherErr, finished))
+			switch kind {
+			case "exact-buffer":
+				if !bytes.Equal(got, inbound) || !finished {
+					fail(c, "delivery", "edge/exact-buffer/stuck", "the peer wrote %d bytes as exactly %d maximum frames (%d bytes on the wire) and went silent: the endpoint delivered %d bytes (finished=%v, read error %v, blocked %+v)", len(inbound), arg, arg*1448, len(got), finished, rdErr, res.Blocked)
+				}
+			case "close-with-data":
+				if !bytes.HasPrefix(inbound, got) {
+					fail(c, "prefix", "edge/close-with-data/prefix", "delivered bytes are not a prefix of what the peer wrote")
+				} else if len(got) != len(inbound) {
+					fail(c, "delivery", "edge/close-with-data/lost", "the peer wrote %d bytes and ended; its last bytes arrived together with the end of the stream: the endpoint delivered only %d bytes (then %v)", len(inbound), len(got), rdErr)
+				} else if rdErr == nil {
+					fail(c, "delivery", "edge/close-with-data/no-end", "the stream ended but Read never reported it")
+				}
+			case "other-conn-write-failure":
+				if otherErr == nil {
+					c.Trivial() // the other connection issued fewer wire writes than the fault index
+				}
+				if wrErr != nil {
+					fail(c, "io-error", "edge/other-conn/write-error", "Write on a healthy connection failed after another connection's write failure: %v", wrErr)
+				} else if p.rs.RxErr != nil || !bytes.Equal(p.rs.Payload, outbound) {
+					fail(c, "prefix", "edge/other-conn/stream-out", "after a failed Write on another connection of the same process, the peer of this connection decoded %d of %d bytes (error: %v)", len(p.rs.Payload), len(outbound), p.rs.RxErr)
+				}
+			}
+		},
+	}
+}
+
 func main() {
 	mc.Main("C01", func(cfg *mc.Config, emit func(mc.Scenario)) {
 		scripts := []script{
@@ -733,6 +919,17 @@ func main() {
 					db = 2
 				}
 				emit(duplexStmt(fmt.Sprintf("duplex-stmt/%s/iat%d", role, iat), role, iat, db, cfg.Seed))
+			}
+			for iat := 0; iat <= 2; iat++ {
+				for _, frames := range []int{15, 16, 17, 32} {
+					emit(edgeScenario(fmt.Sprintf("edge/%s/iat%d/exact-buffer/%d-frames", role, iat, frames), role, iat, "exact-buffer", frames, cfg.Seed))
+				}
+				for end := 0; end <= 1; end++ {
+					emit(edgeScenario(fmt.Sprintf("edge/%s/iat%d/close-with-data/%s", role, iat, []string{"eof", "reset"}[end]), role, iat, "close-with-data", end, cfg.Seed))
+				}
+				for _, n := range []int{0, 1, 2} {
+					emit(edgeScenario(fmt.Sprintf("edge/%s/iat%d/other-conn-write-failure/%d", role, iat, n), role, iat, "other-conn-write-failure", n, cfg.Seed))
+				}
 			}
 			for _, iat := range []int{0, 2} {
 				if iat == 2 && !cfg.Thorough() && role == "server" {
